@@ -435,7 +435,7 @@ func (u *UDPServerTransport) receiveMessage() {
 		}
 		address := peerAddr.IP.String()
 		port := peerAddr.Port
-		vt("udp.recv", u, &buf[0], n)
+		vt("udp.recv", u, buf, n)
 		zap.L().Info("a UDP packet is received", zap.Int("length", n), zap.String("localAddr", u.localAddr.String()), zap.String("remoteAddr", peerAddr.String()))
 		u.msgParseChannel <- SizedByteArray{b: buf, n: n, msgHandler: func(msg *Message) {
 			u.msgHandler.HandleRawMessage(NewRawMessage(address, port, u, u.receivedSupport, msg))
@@ -450,7 +450,7 @@ func (u *UDPServerTransport) startParseMessage() {
 		reader := bufio.NewReaderSize(bytes.NewBuffer(sized_byte_array.b), sized_byte_array.n)
 		msg, err := ParseMessage(reader)
 		u.msgBufPool.Free(sized_byte_array.b)
-		vt("udp.parse", u, &sized_byte_array.b[0], sized_byte_array.n, err == nil)
+		vt("udp.parse", u, sized_byte_array.b, sized_byte_array.n, err == nil)
 		if err == nil {
 			sized_byte_array.msgHandler(msg)
 		}
